@@ -94,6 +94,10 @@ def check(tier, seed):
             first.item_id = (first.item_id + 1) & 0xFFF
             impl = C.guarded(K.impl_fromkey, key, v)
             cases.append(Case('cfg-from-key-twice', f'cfromkey {sk} {key} {K.cval_token(v)}', impl, {'key': hex(key), 'value': repr(v), 'after_mutating_first_result': True}, kind='fromkey-twice'))
+        # lists of (key, value) pairs -> items -> VALSET payload: one item per pair, in order, also when a key repeats
+        for _ in range(60 if tier == 'quick' else 2500):
+            cmd, impl, desc = K.keyvalues_case(rng, sorted(kt['consts'].values()))
+            cases.append(Case('cfg-from-keyvalues', cmd, impl, desc, kind='from-keyvalues'))
         # published keys + random keys with zero reserved bits
         keys = sorted(kt['consts'].values())
         # neighbourhood of every published key: other size codes, adjacent item/group, reserved bits set
